@@ -9,6 +9,7 @@ import (
 	"os"
 	"os/exec"
 	"path/filepath"
+	"runtime"
 	"strings"
 	"sync"
 	"time"
@@ -93,6 +94,17 @@ func queryFileText(q Query) string {
 // FullText is the file content that is handed to the solvers (for replay files).
 func FullText(q Query) string { return queryFileText(q) }
 
+// procSem bounds the number of solver processes that run at the same time (all engines share it).
+var procSem = make(chan struct{}, procSlots())
+
+func procSlots() int {
+	n := runtime.NumCPU()
+	if n < 2 {
+		n = 2
+	}
+	return n
+}
+
 var fileSeq struct {
 	sync.Mutex
 	n int
@@ -155,6 +167,15 @@ func solveWith(env *Env, q Query, only []string, seed int, timeoutS int) Answer 
 		started++
 		go func(s solverCfg) {
 			argv := s.argv(file, timeoutS, seed)
+			// one solver process per core: the time limit of a process starts when it gets its core, so that a
+			// loaded machine makes a check slower, never "unknown"
+			select {
+			case procSem <- struct{}{}:
+			case <-ctx.Done():
+				ch <- one{Answer{Res: "unknown", Solver: s.name, Output: "cancelled"}}
+				return
+			}
+			defer func() { <-procSem }()
 			cctx, ccancel := context.WithTimeout(ctx, time.Duration(timeoutS+2)*time.Second)
 			defer ccancel()
 			cmd := exec.CommandContext(cctx, argv[0], argv[1:]...)
@@ -262,6 +283,42 @@ func RunAll(env *Env, obls []*Obl, values func(o *Obl) []string) {
 			o.SMTBytes = len(o.Query)
 			if env.Verbose {
 				fmt.Fprintf(os.Stderr, "  %-70s %-10s %s %.2fs\n", o.Name, o.Status, a.Solver, a.TimeS)
+			}
+		}(o)
+	}
+	wg.Wait()
+	// second chance for claimed obligations that stayed undecided: a quiet re-run (few at a time, longer limit,
+	// other seeds).  A timeout under load is thereby not reported as a failed obligation; an obligation that is
+	// really not provable stays unknown and is reported.
+	var again []*Obl
+	for _, o := range obls {
+		if o.Status == Unknown && !o.Canary && o.Query != "" && (env.Claimed == nil || env.Claimed(o.Name)) {
+			again = append(again, o)
+		}
+	}
+	if len(again) > 12 {
+		again = again[:12]
+	}
+	sem2 := make(chan struct{}, 4)
+	for _, o := range again {
+		wg.Add(1)
+		sem2 <- struct{}{}
+		go func(o *Obl) {
+			defer wg.Done()
+			defer func() { <-sem2 }()
+			var vals []string
+			if values != nil {
+				vals = values(o)
+			}
+			first := o.TimeS
+			a := solveWith(env, Query{Text: o.Query, Values: vals}, []string{"z3", "z3-new", "cvc5", "cvc5-enum"}, 7, env.TimeoutS*5/2)
+			if a.Res == "sat" || a.Res == "unsat" {
+				ApplyAnswer(o, a)
+				o.Output = strings.TrimSpace("decided on the quiet re-run; " + o.Output)
+			}
+			o.TimeS += first
+			if env.Verbose {
+				fmt.Fprintf(os.Stderr, "  %-70s %-10s %s %.2fs (re-run)\n", o.Name, o.Status, a.Solver, a.TimeS)
 			}
 		}(o)
 	}
